@@ -64,8 +64,13 @@ Definition valid_request (cfg : config) (s : st) (r : request) : Prop :=
   | RStatus =>
       exists b, r_cred r = Bearer b /\ valid_principal (clock s) (cfg_host cfg) (cfg_secret cfg) b /\
                 In "relay:stats" (c_scopes (b_claims b))
-  | RNotFound | RBadMethod | ROpaque => False
+  | RNotFound | RBadMethod | ROpaque | RDocSpec | RDocUI | ROptionsStar => False
   end.
+
+(* the three request lines that are answered 200 without reaching any operation: go-openapi's documentation
+   middlewares (/swagger.json, /docs) and net/http's own answer to OPTIONS * *)
+Definition public_route (rt : route) : Prop :=
+  match rt with RDocSpec | RDocUI | ROptionsStar => True | _ => False end.
 
 (* ------------------------------------------------------------------ the authenticator *)
 Lemma validate_bearer_principal now host secret b c :
@@ -293,7 +298,7 @@ Lemma handle_refusal_or_success cfg s r : refusal (snd (handle true cfg s r)) \/
 Proof.
   destruct (handle true cfg s r) as [s' x] eqn:H. cbn [snd].
   unfold handle in H.
-  destruct (r_route r) eqn:Hr; try (inversion H; left; cbn; lia);
+  destruct (r_route r) eqn:Hr; try (inversion H; (left + right); cbn; lia);
     destruct (validate_header (clock s) (cfg_host cfg) (cfg_secret cfg) (r_cred r)) as [| |c]; try (inversion H; left; cbn; lia).
   - apply session_step_cases in H. destruct H as [[Hf _]|(e & i & n & _ & _ & _ & _ & _ & _ & _ & _ & _ & Hm)]; [left; exact Hf|].
     unfold mint in Hm. inversion Hm. right; cbn; lia.
@@ -325,11 +330,11 @@ Proof.
 Qed.
 
 (* success_only_if_valid *)
-Lemma handle_success_valid cfg s r : success (snd (handle true cfg s r)) -> valid_request cfg s r.
+Lemma handle_success_valid0 cfg s r : ~ public_route (r_route r) -> success (snd (handle true cfg s r)) -> valid_request cfg s r.
 Proof.
-  destruct (handle true cfg s r) as [s' x] eqn:H. cbn [snd]. intros Hs.
+  intros Hnp. destruct (handle true cfg s r) as [s' x] eqn:H. cbn [snd]. intros Hs.
   unfold handle in H. unfold valid_request.
-  destruct (r_route r) eqn:Hr; try (inversion H; subst x; cbn in Hs; lia);
+  destruct (r_route r) eqn:Hr; try (exfalso; apply Hnp; exact I); try (inversion H; subst x; cbn in Hs; lia);
     destruct (validate_header (clock s) (cfg_host cfg) (cfg_secret cfg) (r_cred r)) as [| |c] eqn:Hv; try (inversion H; subst x; cbn in Hs; lia).
   - apply session_step_cases in H.
     destruct H as [[Hf _]|(e & i & n & He & Hi & Hn & Ht & Hsc & Hp & Hid & Hb & Hd & _)]; [exfalso; eapply refusal_not_success; eauto|].
@@ -358,6 +363,19 @@ Proof.
     destruct (principal_valid _ _ _ _ _ _ Hv Hin Hex) as (bb & -> & -> & Hvp & Hin'). exists bb. auto.
 Qed.
 
+Lemma public_route_dec rt : {public_route rt} + {~ public_route rt}.
+Proof. destruct rt; cbn; auto. Qed.
+
+Lemma handle_success_valid cfg s r : success (snd (handle true cfg s r)) -> public_route (r_route r) \/ valid_request cfg s r.
+Proof.
+  intros Hs. destruct (public_route_dec (r_route r)) as [Hp|Hnp]; [left; exact Hp|right; apply handle_success_valid0; assumption].
+Qed.
+
+(* what a public route answers: 200, nothing read, nothing changed *)
+Lemma handle_public cfg s r : public_route (r_route r) -> fst (handle true cfg s r) = s /\ success (snd (handle true cfg s r)).
+Proof. unfold handle. destruct (r_route r); cbn; intros H; try contradiction; split; try reflexivity; lia. Qed.
+
+
 (* ------------------------------------------------------------------ C01: bad session requests *)
 Lemma session_rejects_bad cfg s id cr bid ex :
   (forall b, cr = Bearer b ->
@@ -369,7 +387,7 @@ Proof.
   intros Hbad. set (r := mkreq (RSession id) cr bid ex).
   assert (Hr : refusal (snd (handle true cfg s r))).
   { destruct (handle_refusal_or_success cfg s r) as [H|H]; [exact H|exfalso].
-    apply handle_success_valid in H. unfold valid_request in H. cbn [r_route r] in H.
+    apply handle_success_valid0 in H; [|cbn; auto]. unfold valid_request in H. cbn [r_route r] in H.
     destruct H as (b & Hc & Hg & Ht & Hb & Hd). cbn [r_cred r] in Hc.
     destruct (Hbad b Hc) as [H1|[H1|[[H1 H2]|H1]]]; try contradiction; try congruence.
     rewrite (Hb H1) in H2; discriminate. }
@@ -392,7 +410,7 @@ Lemma admin_only cfg s r :
   exists b, r_cred r = Bearer b /\ valid_principal (clock s) (cfg_host cfg) (cfg_secret cfg) b /\ In "relay:admin" (c_scopes (b_claims b)).
 Proof.
   intros Ha Hs. assert (H : success (snd (handle true cfg s r))) by (destruct Hs; [assumption|apply changed_means_success; assumption]).
-  apply handle_success_valid in H. unfold valid_request in H.
+  apply handle_success_valid0 in H; [|destruct (r_route r); cbn in Ha |- *; auto]. unfold valid_request in H.
   destruct (r_route r); cbn in Ha; try contradiction; destruct H as (b & H1 & H2 & H3); exists b; split; auto; split; auto;
     try exact H3; destruct H3 as [H3 _]; exact H3.
 Qed.
@@ -403,7 +421,7 @@ Lemma stats_only cfg s r :
   exists b, r_cred r = Bearer b /\ valid_principal (clock s) (cfg_host cfg) (cfg_secret cfg) b /\ In "relay:stats" (c_scopes (b_claims b)).
 Proof.
   intros Ha Hs. assert (H : success (snd (handle true cfg s r))) by (destruct Hs; [assumption|apply changed_means_success; assumption]).
-  apply handle_success_valid in H. unfold valid_request in H. rewrite Ha in H. exact H.
+  apply handle_success_valid0 in H; [|rewrite Ha; cbn; auto]. unfold valid_request in H. rewrite Ha in H. exact H.
 Qed.
 
 (* a bearer without the exact scope: refused, nothing changes; and when the token itself is valid and the
@@ -506,20 +524,22 @@ Qed.
 (* any other key - the empty one, a part or a prefix of the secret, a longer one - and no HMAC at all: refused by
    the authenticator, on every route that has one, with nothing changed *)
 Lemma unauthenticated_refused cfg s r :
+  ~ public_route (r_route r) ->
   (forall c, validate_header (clock s) (cfg_host cfg) (cfg_secret cfg) (r_cred r) <> Principal c) ->
   refusal (snd (handle true cfg s r)) /\ fst (handle true cfg s r) = s.
 Proof.
-  intros Hn. unfold handle.
-  destruct (r_route r); try (cbn; split; [lia|reflexivity]);
+  intros Hnp Hn. unfold handle.
+  destruct (r_route r); try (exfalso; apply Hnp; exact I); try (cbn; split; [lia|reflexivity]);
     destruct (validate_header (clock s) (cfg_host cfg) (cfg_secret cfg) (r_cred r)) as [| |c] eqn:Hv;
     try (cbn; split; [lia|reflexivity]); exfalso; apply (Hn c); reflexivity.
 Qed.
 
 Lemma wrong_key_refused cfg s r b :
+  ~ public_route (r_route r) ->
   r_cred r = Bearer b -> b_signed b <> Some (cfg_secret cfg) ->
   refusal (snd (handle true cfg s r)) /\ fst (handle true cfg s r) = s.
 Proof.
-  intros Hc Hk. apply unauthenticated_refused. intros c Hv.
+  intros Hnp Hc Hk. apply unauthenticated_refused; [exact Hnp|]. intros c Hv.
   apply principal_signed_with_secret in Hv. destruct Hv as (b' & Hc' & Hs). congruence.
 Qed.
 
